@@ -459,7 +459,7 @@ func (w *World) leftFieldOf(qt *QType) string {
 // ---------- N-ITER ----------
 
 func ruleNIter(w *World, r *Report) {
-	r.rule("N-ITER", "(1) NodeIterator.MoveNext: a nil Select result returns false without touching the node; otherwise the node is positioned by MoveTo(n), and when that fails replaced by n.Copy() (never aliased to the producer's cursor), then true is returned; (2) every constructor of NodeIterator takes its query from a Clone() of the compiled tree and its node from the caller's navigator; (3) the context-reading leaf queries are exhausted after one result until re-armed: non-nil is returned only on a path that increments the guard tested at entry")
+	r.rule("N-ITER", "(1) NodeIterator.MoveNext followed by constant propagation for its three cases: the query is exhausted => false and the held node untouched; the query yields n and the held navigator can be moved there => MoveTo(n), true; it cannot => the held navigator is replaced by n.Copy() (never by n itself), true; the node is pulled from the iterator's own query with the iterator as context; (2) every constructor of NodeIterator takes its query from a Clone() of the compiled tree and its node from the caller's navigator; (3) the context-reading leaf queries followed through their life cycle: a fresh one yields the context once, asked again it answers nil and keeps answering nil, Evaluate re-arms it")
 	it, qi, ni, err := w.iterStruct()
 	if err != nil {
 		r.bad("ANCHOR", "N-ITER", "", err.Error())
